@@ -1,22 +1,331 @@
 package main
 
-import (
-	"fmt"
+// Node rig: a full util/testnode (real queue, executor, mavl store, blockchain, solo consensus
+// with mining off, the production pool) receives transactions through the public API and blocks
+// through BlockChain.ProcAddBlockMsg, so EventAddBlock / EventDelBlock reach the pool exactly
+// as in production (a rollback is a real reorganisation onto a heavier sibling block).
+// Blocks are manufactured by a second node (the factory) that executes them on the parent's
+// state, so StateHash / TxHash / block hashes are genuine.
+//
+// Model height 0 is real height trunk: connectBestChain never adopts a side branch whose tip is
+// below height 12 (finalisation margin), so the receiver first gets a trunk of 12 blocks; the
+// trunk also funds the senders.
 
+import (
+	"bytes"
+	"fmt"
+	"os"
+	"sync"
+	"time"
+
+	"github.com/33cn/chain33/blockchain"
+	"github.com/33cn/chain33/client"
+	"github.com/33cn/chain33/common/merkle"
+	"github.com/33cn/chain33/queue"
+	cty "github.com/33cn/chain33/system/dapp/coins/types"
 	"github.com/33cn/chain33/types"
+	"github.com/33cn/chain33/util"
+	"github.com/33cn/chain33/util/testnode"
 )
 
-type node struct{}
+const trunk = 12
 
-func newNode(pc poolCfg, t0 int64) (rig, error)                                { return nil, fmt.Errorf("node rig not built yet") }
-func (n *node) fund(c *conc) error                                             { return nil }
-func (n *node) Submit(tx *types.Transaction) (bool, string, error)             { return false, "", nil }
-func (n *node) AddBlock(members [][]*types.Transaction, blockTime int64) error { return nil }
-func (n *node) DelBlock() error                                                { return nil }
-func (n *node) Remove(hashes [][]byte) error                                   { return nil }
-func (n *node) Sweep() error                                                   { return nil }
-func (n *node) TxList(k int, excl [][]byte) ([]*types.Transaction, error)      { return nil, nil }
-func (n *node) SetNonce(addr string, k int64)                                  {}
-func (n *node) Observe(addrs []string, hashes [][]byte) (*obs, error)          { return nil, nil }
-func (n *node) ChainID() int32                                                 { return 0 }
-func (n *node) Close()                                                         {}
+type tnode struct {
+	mock  *testnode.Chain33Mock
+	chain *blockchain.BlockChain
+	cfg   *types.Chain33Config
+}
+
+var startMu sync.Mutex
+
+func startNode(pc poolCfg) (*tnode, error) {
+	cfg := types.NewChain33Config(cfgString(pc, true))
+	startMu.Lock()
+	mock := testnode.NewWithConfig(cfg, nil)
+	startMu.Unlock()
+	if mock == nil {
+		return nil, fmt.Errorf("testnode did not start")
+	}
+	n := &tnode{mock: mock, chain: mock.GetBlockChain(), cfg: cfg}
+	deadline := time.Now().Add(120 * time.Second)
+	for n.chain.GetBlockHeight() < 0 || n.chain.GetDownloadSyncStatus() != 0 {
+		if time.Now().After(deadline) {
+			mock.Close()
+			return nil, fmt.Errorf("node not ready (height %d)", n.chain.GetBlockHeight())
+		}
+		time.Sleep(2 * time.Millisecond)
+	}
+	return n, nil
+}
+
+// factory: one per process; its own chain stays at genesis, blocks are only executed on its store.
+type factory struct {
+	n     *tnode
+	mu    sync.Mutex
+	nonce int64
+}
+
+var (
+	facOnce sync.Once
+	fac     *factory
+	facErr  error
+)
+
+func getFactory() (*factory, error) {
+	facOnce.Do(func() {
+		if st, err := os.Stat("/dev/shm"); err == nil && st.IsDir() {
+			if d, err := os.MkdirTemp("/dev/shm", fmt.Sprintf("verif-mempool-%d-", os.Getpid())); err == nil {
+				os.Setenv("TMPDIR", d)
+				tmpRoot = d
+			}
+		}
+		n, err := startNode(poolCfg{Cap: 100, PerSender: 100, MaxLast: 10})
+		if err != nil {
+			facErr = err
+			return
+		}
+		fac = &factory{n: n, nonce: time.Now().UnixNano()}
+	})
+	return fac, facErr
+}
+
+var tmpRoot string
+
+func cleanupTmp() {
+	if fac != nil {
+		fac.n.mock.Close()
+	}
+	if tmpRoot != "" {
+		os.RemoveAll(tmpRoot)
+	}
+}
+
+// filler makes a coins transfer of the genesis key (every block needs a transaction: solo rejects empty blocks).
+func (f *factory) filler(to string, amount int64) *types.Transaction {
+	f.nonce++
+	v := &cty.CoinsAction_Transfer{Transfer: &types.AssetsTransfer{Amount: amount}}
+	tx := &types.Transaction{Execer: []byte("coins"), Payload: types.Encode(&cty.CoinsAction{Value: v, Ty: cty.CoinsActionTransfer}), To: to, Fee: 10 * feeUnit}
+	tx.Nonce = f.nonce
+	tx.ChainID = f.n.cfg.GetChainID()
+	tx.Sign(types.SECP256K1, f.n.mock.GetGenesisKey())
+	return tx
+}
+
+// make executes a block with the given transactions on the parent's state.
+func (f *factory) make(parent *types.Block, blockTime int64, txs []*types.Transaction, bits uint32) (*types.Block, error) {
+	cfg := f.n.cfg
+	in := make([]*types.Transaction, len(txs))
+	for i, tx := range txs {
+		in[i] = types.Clone(tx).(*types.Transaction)
+	}
+	blk := &types.Block{Height: parent.Height + 1, BlockTime: blockTime, ParentHash: parent.Hash(cfg), Difficulty: bits}
+	blk.Txs = in
+	if cfg.IsFork(blk.Height, "ForkRootHash") {
+		blk.Txs = types.TransactionSort(blk.Txs)
+	}
+	blk.TxHash = merkle.CalcMerkleRoot(cfg, blk.Height, blk.Txs)
+	f.mu.Lock()
+	defer f.mu.Unlock()
+	detail, del, err := util.ExecBlock(f.n.mock.GetClient(), parent.StateHash, blk, false, true, false)
+	if err != nil {
+		return nil, fmt.Errorf("factory exec: %v", err)
+	}
+	if len(del) != 0 || len(detail.Block.Txs) != len(txs) {
+		return nil, fmt.Errorf("factory dropped %d of %d transactions", len(del), len(txs))
+	}
+	for i, r := range detail.Receipts {
+		if r.Ty != types.ExecOk && r.Ty != types.ExecPack {
+			return nil, fmt.Errorf("factory: transaction %d has receipt type %d", i, r.Ty)
+		}
+	}
+	return types.Clone(detail.Block).(*types.Block), nil
+}
+
+// work bits: target 2^16-1 shifted right k times, i.e. work doubles with k
+func workBits(k int) uint32 { return 0x03000000 | uint32(0xffff>>uint(k)) }
+
+type node struct {
+	n      *tnode
+	f      *factory
+	api    client.QueueProtocolAPI
+	cli    queue.Client
+	rpc    queue.Client
+	mu     sync.Mutex
+	nonces map[string]int64
+	blocks []*types.Block // best chain, genesis first
+	work   []int          // work exponent of blocks[i]
+	t0     int64
+}
+
+func newNode(pc poolCfg, t0 int64) (rig, error) {
+	f, err := getFactory()
+	if err != nil {
+		return nil, err
+	}
+	n, err := startNode(pc)
+	if err != nil {
+		return nil, err
+	}
+	r := &node{n: n, f: f, nonces: map[string]int64{}, t0: t0}
+	r.api = n.mock.GetAPI()
+	r.cli = n.mock.GetClient()
+	// the evm executor (the production nonce source) is not part of this repository: answer from the model chain
+	r.rpc = r.cli.GetQueue().Client()
+	r.rpc.Sub("rpc")
+	go func() {
+		for msg := range r.rpc.Recv() {
+			if msg.Ty == types.EventGetEvmNonce {
+				req := msg.GetData().(*types.ReqEvmAccountNonce)
+				r.mu.Lock()
+				k := r.nonces[req.GetAddr()]
+				r.mu.Unlock()
+				msg.Reply(r.rpc.NewMessage("", types.EventGetEvmNonce, &types.EvmAccountNonce{Nonce: k, Addr: req.GetAddr()}))
+			}
+		}
+	}()
+	g, err := n.chain.GetBlock(0)
+	if err != nil {
+		r.Close()
+		return nil, err
+	}
+	r.blocks = []*types.Block{g.Block}
+	r.work = []int{0}
+	return r, nil
+}
+
+func (r *node) heightOffset() int64 { return trunk }
+
+// fund builds the trunk: the first block funds every sender, the rest carry a filler transfer.
+func (r *node) fund(c *conc) error {
+	for i := 1; i <= trunk; i++ {
+		var txs []*types.Transaction
+		if i == 1 {
+			for _, a := range c.keys.addr {
+				txs = append(txs, r.f.filler(a, 1e10))
+			}
+		}
+		txs = append(txs, r.f.filler(okTo, int64(1000+i)))
+		if err := r.extend(txs, r.t0-int64(trunk-i+1), 0); err != nil {
+			return fmt.Errorf("trunk block %d: %v", i, err)
+		}
+	}
+	return nil
+}
+
+func (r *node) deliver(b *types.Block) error {
+	cp := types.Clone(b).(*types.Block)
+	_, err := r.n.chain.ProcAddBlockMsg(false, &types.BlockDetail{Block: cp}, "verif-peer")
+	return err
+}
+
+func (r *node) tipCheck(want *types.Block) error {
+	h, err := r.api.GetLastHeader()
+	if err != nil {
+		return err
+	}
+	if h.Height != want.Height || !bytes.Equal(h.Hash, want.Hash(r.n.cfg)) {
+		return fmt.Errorf("node tip is height %d, expected the delivered block at height %d", h.Height, want.Height)
+	}
+	return nil
+}
+
+func (r *node) extend(txs []*types.Transaction, blockTime int64, k int) error {
+	parent := r.blocks[len(r.blocks)-1]
+	b, err := r.f.make(parent, blockTime, txs, workBits(k))
+	if err != nil {
+		return err
+	}
+	if err := r.deliver(b); err != nil {
+		return fmt.Errorf("deliver: %v", err)
+	}
+	if err := r.tipCheck(b); err != nil {
+		return err
+	}
+	r.blocks = append(r.blocks, b)
+	r.work = append(r.work, k)
+	return barrierHigh(r.cli)
+}
+
+func (r *node) ChainID() int32 { return r.n.cfg.GetChainID() }
+
+func (r *node) Close() {
+	if r.rpc != nil {
+		r.rpc.Close()
+	}
+	r.n.mock.Close()
+}
+
+func (r *node) SetNonce(addr string, k int64) {
+	r.mu.Lock()
+	r.nonces[addr] = k
+	r.mu.Unlock()
+}
+
+func (r *node) Submit(tx *types.Transaction) (bool, string, error) { return submitVia(r.api, tx) }
+
+func (r *node) AddBlock(members [][]*types.Transaction, blockTime int64) error {
+	// no filler here: a rollback re-admits every transaction of the block, and the model's blocks hold entries only
+	txs := flatten(members)
+	if len(txs) == 0 {
+		return fmt.Errorf("the solo consensus rejects empty blocks (node-rig behaviours have none)")
+	}
+	return r.extend(txs, blockTime, 0)
+}
+
+// Reorg replaces the tip by a heavier sibling holding the given transactions: the blockchain
+// disconnects the old tip (EventDelBlock to the pool) and connects the sibling (EventAddBlock).
+func (r *node) Reorg(members [][]*types.Transaction, blockTime int64) error {
+	if len(r.blocks) <= trunk+1 {
+		return fmt.Errorf("Reorg with no block above the trunk")
+	}
+	old := r.blocks[len(r.blocks)-1]
+	k := r.work[len(r.work)-1] + 1
+	if k > 14 {
+		return fmt.Errorf("too many reorganisations at one height")
+	}
+	parent := r.blocks[len(r.blocks)-2]
+	txs := flatten(members)
+	if len(txs) == 0 {
+		return fmt.Errorf("the solo consensus rejects empty blocks (node-rig behaviours have none)")
+	}
+	b, err := r.f.make(parent, blockTime, txs, workBits(k))
+	if err != nil {
+		return err
+	}
+	if err := r.deliver(b); err != nil {
+		return fmt.Errorf("deliver sibling: %v", err)
+	}
+	if err := r.tipCheck(b); err != nil {
+		return fmt.Errorf("sibling of %x not adopted: %v", old.Hash(r.n.cfg)[:4], err)
+	}
+	r.blocks[len(r.blocks)-1] = b
+	r.work[len(r.work)-1] = k
+	if err := barrier(r.cli); err != nil {
+		return err
+	}
+	return barrierHigh(r.cli)
+}
+
+func (r *node) DelBlock() error {
+	return fmt.Errorf("a full node cannot roll a block back without connecting another one (use Reorg)")
+}
+
+func (r *node) Remove(hashes [][]byte) error {
+	return r.api.RemoveTxsByHashList(&types.TxHashList{Hashes: hashes})
+}
+
+func (r *node) Sweep() error {
+	return fmt.Errorf("the expiry ticker of a full node cannot be triggered from outside")
+}
+
+func (r *node) TxList(k int, excl [][]byte) ([]*types.Transaction, error) {
+	return txListVia(r.api, k, excl)
+}
+
+func (r *node) Observe(addrs []string, hashes [][]byte) (*obs, error) {
+	o := &obs{fee: -1, bytes: -1, cnt: map[string]int64{}}
+	if err := observeAPI(r.api, r.cli, addrs, hashes, o); err != nil {
+		return nil, err
+	}
+	return o, nil
+}
